@@ -25,9 +25,13 @@ AttrPaths(at) == { FW \o ".attributes." \o f : f \in
      [] OTHER -> {"recipient"} }
 PathsFor(t) == CommonPaths \cup AttrPaths(t.fw.at) \cup (IF t.acts = <<>> THEN {PA} ELSE ActionPaths)
                \cup (IF t.acts = <<>> THEN {"x", "orbiter.x", FW \o ".x", FW \o ".attributes.x"} ELSE UnknownPaths)
-Muts == (IF ParseSet = "full" THEN Mutations ELSE Mutations \ {"longstr", "deepobj", "dupsame", "numstr"}) \ {"rename", "trailgarbage", "trailobj", "trailbrace", "leadgarbage", "tworoots"}
+Muts == (IF ParseSet = "full" THEN Mutations ELSE Mutations \ {"longstr", "deepobj", "dupsame", "numstr"}) \ {"rename", "unknown3", "trailgarbage", "trailobj", "trailbrace", "leadgarbage", "tworoots"}
 RenameGrid == { [t EXCEPT !.mk = "MUT", !.aid = p, !.op = "rename"] : t \in {T_CCTP, T_INT}, p \in {"orbiter", FW, FW \o ".attributes"} }
               \cup { [T_CCTP EXCEPT !.mk = "MUT", !.aid = PA, !.op = "rename"] }      \* (T_INT carries no pre_actions key)
+\* three unknown fields at once in one object (a decoder that names "any" of them in its error)
+Unknown3Grid == { [t EXCEPT !.mk = "MUT", !.aid = p, !.op = "unknown3"] : t \in {T_CCTP, T_INT},
+                    p \in {"orbiter", FW, FW \o ".attributes"} }
+                \cup { [T_CCTP EXCEPT !.mk = "MUT", !.aid = p, !.op = "unknown3"] : p \in {A0, A0 \o ".attributes"} }
 Templates == IF ParseSet = "full" THEN {T_CCTP, T_HYP, T_INT, T_INTF} ELSE {T_CCTP, T_HYP, T_INT}
 MutGrid == UNION { { [t EXCEPT !.mk = "MUT", !.aid = p, !.op = m] : p \in PathsFor(t), m \in Muts } : t \in Templates }
 
@@ -55,7 +59,7 @@ Extremes == { [Xfer(0, b, 1000, FwINT("U"), <<>>) EXCEPT !.amtc = c] : b \in {"u
 
 \* data before / after the root object: the memo is not a single JSON object
 TrailGrid == { [t EXCEPT !.mk = "MUT", !.aid = "root", !.op = m] : t \in Templates, m \in {"trailgarbage", "trailobj", "trailbrace", "leadgarbage", "tworoots"} }
-MCAlphabet == MutGrid \cup RenameGrid \cup TrailGrid \cup RandomGrid \cup Extremes
+MCAlphabet == MutGrid \cup RenameGrid \cup Unknown3Grid \cup TrailGrid \cup RandomGrid \cup Extremes
 SmallAlphabet == MCAlphabet
 StepProps == [][ Prop_C14(last') /\ Prop_C15(last') /\ Prop_C01(last') /\ Prop_C03(last') ]_vars
 Depth == TLCGet("level") <= MaxDepth
